@@ -286,6 +286,53 @@ func c12Run(cfg c12Config, kv []string, behindSSL ...bool) explore.Result {
 	return res
 }
 
+// c12RunWriteOnce: exactly one write fails (a transient fault) while the start-up reply is being sent. Either the
+// connection is given up, or - if the client is told ReadyForQuery - it has been told every parameter exactly once.
+func c12RunWriteOnce(cfg c12Config, k int) explore.Result {
+	var res explore.Result
+	res.Outcome = "negotiated"
+	res.Key = fmt.Sprint("write-once", cfg.Name, k)
+	seen := &c12Seen{}
+	one, _, err := c12Server(cfg, seen)
+	if err != nil {
+		res.Engine = err.Error()
+		return res
+	}
+	defer one.Stop()
+	one.C.SetFaults(memnet.Faults{WriteErrOnceAt: k})
+	out, _ := one.Step(pgproto.Startup("user", "alice"))
+	ms, perr := pgproto.ParseBackend(out)
+	if perr != nil {
+		res.Fail("reply-grammar", perr.Error())
+		return res
+	}
+	kinds := pgproto.Kinds(ms)
+	if !strings.Contains(kinds, "Z") {
+		return res // the start-up was given up: nothing was promised
+	}
+	want := map[string]bool{"server_encoding": true, "client_encoding": true, "is_superuser": true, "session_authorization": true}
+	for k := range cfg.Global {
+		want[string(k)] = true
+	}
+	if cfg.Version != "" {
+		want["server_version"] = true
+	}
+	got := map[string]int{}
+	for _, m := range ms {
+		if m.Type == 'S' {
+			got[m.Key]++
+		}
+	}
+	for k := range want {
+		if got[k] != 1 {
+			res.Fail("parameter-status-missing", fmt.Sprintf("write %d of the start-up reply failed once: the client was told ReadyForQuery (reply %q) but ParameterStatus %q arrived %d times", k, kinds, k, got[k]))
+			break
+		}
+	}
+	res.Trans = []string{"startup|one failed write|ready or closed"}
+	return res
+}
+
 func containsStr(s []string, v string) bool {
 	for _, x := range s {
 		if x == v {
@@ -453,6 +500,16 @@ func c12Enumerate(tier string, emit explore.Emit) {
 			emit(explore.Case{Family: "malformed-or-cancel", Size: 1,
 				Desc: func() any { return map[string]any{"config": cfg.Name, "packet": b.Name} },
 				Run:  func() explore.Result { return c12RunBad(cfg, b) }})
+		}
+	}
+	for _, cfg := range cfgs {
+		if cfg.Auth || cfg.Earlier != nil {
+			continue
+		}
+		for k := 1; k <= 12; k++ {
+			cfg, k := cfg, k
+			emit(explore.Case{Family: "transient-write-fault", Size: 3, Desc: func() any { return map[string]any{"config": cfg.Name, "write_that_fails_once": k} },
+				Run: func() explore.Result { return c12RunWriteOnce(cfg, k) }})
 		}
 	}
 	// CancelRequest after a completed TLS upgrade (real crypto/tls client over the tapped transport, see C11)
